@@ -3,9 +3,11 @@ from gosym.check import Task
 
 ID = 'C20'
 PKG = 'pkg/tlog'
-HARNESS_FILES = ['pkg/frame/zz_verif_common.go', 'pkg/frame/zz_verif_c05.go', 'pkg/frame/zz_verif_export.go', 'pkg/tlog/zz_verif_c20.go']
+HARNESS_FILES = ['pkg/frame/zz_verif_common.go', 'pkg/frame/zz_verif_c05.go', 'pkg/frame/zz_verif_export.go', 'pkg/frame/zz_verif_dialect.go', 'pkg/frame/zz_verif_c02.go',
+                 'pkg/x25/zz_verif_c02.go', 'pkg/frame/zz_verif_c06.go', 'pkg/frame/zz_verif_msgs.go', 'pkg/tlog/zz_verif_c20.go']
+ROOTS = ['tlog.verifHarness_C20']
 ALLOW = 'bufio,io,encoding/binary,errors,bytes,time'
-INITS = 'io,bufio,errors,time'
+INITS = 'io,bufio,errors,time,github.com/bluenviron/gomavlib/v3/pkg/message'
 OPTIONS = {'clock_stub': False}
 ARITH = {'bv_as_int_fallback': True, 'aided_simplify': True, 'timeout_ms': 2000, 'cvc5_timeout_ms': 30000}
 SLICE_S = 5
@@ -24,6 +26,9 @@ def tasks(tier):
             ts.append(Task('verifHarness_C20_cut', [k, n, cut], {'branch_timeout_ms': 300}))
     for cut in ((-1, 3, 9) if tier == 'quick' else (-1, 1, 3, 7, 8, 9, 12, 20)):
         ts.append(Task('verifHarness_C20_readsplit', [2, 1, cut], {'branch_timeout_ms': 300}))
+    for version in (1, 2):
+        for shape in range(4):
+            ts.append(Task('verifHarness_C20_dialect', [version, shape], {'x25_uf': True}))
     for n in (0, 2):
         ts.append(Task('verifHarness_C20_unencodable', [n]))
         ts.append(Task('verifHarness_C20_fail_then_ok', [n]))
@@ -33,11 +38,12 @@ def tasks(tier):
 
 
 def required_reach(tier):
-    return ['C20/W', 'C20/T', 'C20/C', 'C20/E', 'C20/E2', 'C20/F', 'C20/S']
+    return ['C20/W', 'C20/T', 'C20/C', 'C20/E', 'C20/E2', 'C20/F', 'C20/S', 'C20/Wd']
 
 
 def bounds(tier):
-    return {'entries': '<= 2 (quick) / <= 3 (thorough), each v1 / v2 / signed v2 (forked), raw payload <= 1 (quick) / 3 (thorough) bytes plus one entry with the largest payload (255 bytes), all contents symbolic',
+    return {'dialect_entries': 'writer and reader with the harness dialect: one entry whose frame holds a decoded message (4 shapes, arbitrary field values, v1 and v2): file = timestamp + spec frame, read back as the decoded message',
+            'entries': '<= 2 (quick) / <= 3 (thorough), each v1 / v2 / signed v2 (forked), raw payload <= 1 (quick) / 3 (thorough) bytes plus one entry with the largest payload (255 bytes), all contents symbolic',
             'times': 'writer: sec in (-2^42, 2^42), nsec in [0, 1e9); reader lemma: every timestamp field value in (-2^62, 2^62)',
             'cuts': 'every byte offset of the log', 'read_segmentation': '2-entry log delivered in 1-byte reads or with a first transport read of 3 / 9 bytes (quick), eight sizes (thorough)',
             'failed_then_valid': 'an unencodable entry followed by a valid one: the file holds only the valid entry', 'write_failures': 'underlying Write failing at call 1, 2 or 3'}
